@@ -79,6 +79,36 @@ theorem highestEnd_iff (ps : List Placed) (total : Nat) :
       have := le_highestEnd hp1
       omega
 
+/-- the size padded to the alignment -/
+def pad (p : Placed) : Placed := { p with size := roundUp p.size p.align }
+
+theorem paddedEnd_eq (ps : List Placed) : paddedEnd ps = highestEnd (ps.map pad) := by
+  induction ps with
+  | nil => rfl
+  | cons p ps ih =>
+    simp only [paddedEnd, highestEnd, List.map_cons, List.foldr_cons] at *
+    rw [ih]; rfl
+
+theorem le_paddedEnd (ps : List Placed) : highestEnd ps ≤ paddedEnd ps
+    ∨ ∃ p ∈ ps, p.align = 0 := by
+  induction ps with
+  | nil => left; exact Nat.le_refl _
+  | cons p ps ih =>
+    rcases ih with ih | ⟨q, hq, hz⟩
+    · by_cases hp : p.align = 0
+      · exact Or.inr ⟨p, by simp, hp⟩
+      · left
+        have hle : p.size ≤ roundUp p.size p.align := by
+          have h1 := Nat.div_add_mod (p.size + p.align - 1) p.align
+          have h2 := Nat.mod_lt (p.size + p.align - 1) (Nat.pos_of_ne_zero hp)
+          have h3 : (p.size + p.align - 1) / p.align * p.align =
+              p.align * ((p.size + p.align - 1) / p.align) := Nat.mul_comm _ _
+          unfold roundUp
+          omega
+        simp only [paddedEnd, highestEnd, List.foldr_cons] at *
+        omega
+    · exact Or.inr ⟨q, by simp [hq], hz⟩
+
 /-- **Checker soundness and completeness**: the executable verdict is exactly the property. -/
 theorem ok_iff (ps : List Placed) (total : Nat) : ok ps total = true ↔ Ok ps total := by
   simp only [ok, Ok, Bool.and_eq_true, noOverlapB_iff, alignedB_iff, beq_iff_eq, highestEnd_iff]
